@@ -125,6 +125,17 @@ impl Events {
         ensures r.spec_token() == WAKER_TOKEN || r.spec_token().0 < self.bound(),
     { unimplemented!() }
 }
+/// `events[i]`: the index form of `events.iter()` (rule R9f)
+impl vstd::std_specs::core::IndexSpecImpl<usize> for Events {
+    open spec fn index_req(&self, i: &usize) -> bool { *i < self.spec_len() }
+}
+impl core::ops::Index<usize> for Events {
+    type Output = Event;
+    #[verifier::external_body]
+    fn index(&self, i: usize) -> (r: &Event)
+        ensures r.spec_token() == WAKER_TOKEN || r.spec_token().0 < self.bound(),
+    { unimplemented!() }
+}
 
 impl Event {
     pub uninterp spec fn spec_token(&self) -> MioToken;
